@@ -94,7 +94,7 @@ func glob(pattern, s string) bool {
 	return i == len(p)
 }
 
-var c12Hosts = []string{"example.com", "Example.COM", "chat.example.com", "example.com:8080", "localhost", "localhost:3000", "127.0.0.1", "127.0.0.1:8443", "[::1]", "[::1]:9000", "a.b.c.example.org", "xn--bcher-kva.example"}
+var c12Hosts = []string{"example.com", "Example.COM", "api.example.com", "wiki.internal:8443", "chat.example.com", "example.com:8080", "localhost", "localhost:3000", "127.0.0.1", "127.0.0.1:8443", "[::1]", "[::1]:9000", "a.b.c.example.org", "xn--bcher-kva.example"}
 
 type c12Case struct {
 	Host     string
@@ -148,7 +148,7 @@ func genC12(rt *rapid.T) c12Case {
 	}
 	c.Insecure = rapid.IntRange(0, 9).Draw(rt, "insecure") == 0
 	nilOpts := rapid.Bool().Draw(rt, "nilOptions")
-	c.Family = rapid.SampledFrom([]string{"absent", "same-host", "same-host-case", "pattern-authorised", "other-host", "userinfo-host-at-evil", "userinfo-evil-at-host", "port-mismatch", "suffix-lookalike", "prefix-lookalike", "subdomain-lookalike", "host-in-path", "host-in-query", "host-in-fragment", "null", "schemeless", "opaque", "whitespace", "garbage", "trailing-dot", "double-at", "backslash", "empty-authority", "long-lookalike", "long-authorised", "multi-origin", "suffix-in-query", "suffix-in-query"}).Draw(rt, "family")
+	c.Family = rapid.SampledFrom([]string{"absent", "same-host", "same-host-case", "pattern-authorised", "other-host", "userinfo-host-at-evil", "userinfo-evil-at-host", "port-mismatch", "suffix-lookalike", "prefix-lookalike", "subdomain-lookalike", "host-in-path", "host-in-query", "host-in-fragment", "null", "schemeless", "opaque", "whitespace", "garbage", "trailing-dot", "double-at", "backslash", "empty-authority", "long-lookalike", "long-authorised", "multi-origin", "suffix-in-query", "suffix-in-query", "case-mapping-lookalike"}).Draw(rt, "family")
 	switch c.Family {
 	case "absent":
 		c.Origin = ""
@@ -193,6 +193,16 @@ func genC12(rt *rapid.T) c12Case {
 		c.Origin = rapid.SampledFrom([]string{"http://" + evil + " " + host, "http:// " + host, "http://" + host + "\t.evil.com", " http://" + evil}).Draw(rt, "ws")
 	case "garbage":
 		c.Origin = rapid.SampledFrom([]string{"://", "http://", "http:///" + host, "::::", "%%%", "http://%zz", "http://[::1", "http://" + host + ":port"}).Draw(rt, "garbage")
+	case "case-mapping-lookalike":
+		// the Host with one letter replaced by a character whose LOWER-CASE MAPPING, but not its case folding, lands on
+		// that letter (U+0130 -> "i" + combining dot under Unicode lower-casing rules that special-case it; here simply:
+		// a host that is not equal to Host under any case-insensitive comparison), percent-encoded so that the header
+		// stays ASCII; a same-host test built on lower-casing both sides and comparing must not be fooled
+		if i := strings.IndexAny(bare, "iI"); i >= 0 && !strings.HasPrefix(bare, "[") {
+			c.Origin = scheme + "://" + bare[:i] + "%C4%B0" + bare[i+1:]
+		} else {
+			c.Origin = scheme + "://" + evil
+		}
 	case "trailing-dot":
 		c.Origin = scheme + "://" + bare + "."
 	case "double-at":
@@ -250,6 +260,14 @@ func genC12(rt *rapid.T) c12Case {
 			val = "proxy.internal, " + val
 		}
 		c.Forwarded = append(c.Forwarded, [2]string{name, val})
+	}
+	// Fetch Metadata as browsers send it: Sec-Fetch-Site says how the page relates to the server - and a page on a
+	// sibling sub-domain or another port is "same-site". It is advice about the request, never an authorisation.
+	if rapid.IntRange(0, 3).Draw(rt, "fetchMetadata") == 0 {
+		c.Forwarded = append(c.Forwarded, [2]string{"Sec-Fetch-Site", rapid.SampledFrom([]string{"same-site", "same-site", "same-origin", "none", "cross-site", "SAME-SITE"}).Draw(rt, "secFetchSite")})
+		if rapid.Bool().Draw(rt, "fetchMode") {
+			c.Forwarded = append(c.Forwarded, [2]string{"Sec-Fetch-Mode", "websocket"}, [2]string{"Sec-Fetch-Dest", "empty"})
+		}
 	}
 	return c
 }
